@@ -618,6 +618,9 @@ package hclwrite
 // This is what the loader (parseBlockLabels) and the generator (TokensForValue of a string) produce.
 // litOK(b): the literal bytes b hold no invalid escape sequence (uninterpreted; see ParseStringLiteralToken).
 // verif:specfunc litOK(b []byte) bool
+// litVal(b): the string the literal bytes b stand for after escape processing (uninterpreted; it is
+// whatever ParseStringLiteralToken returns).
+// verif:specfunc litVal(b []byte) string
 // verif:pred hasErr(d hcl.Diagnostics) = exists j int :: 0 <= j && j < len(d) && d[j].Severity == 1
 // verif:pred QuotedWF(ts Tokens) = len(ts) >= 2 && (forall i int :: { ts[i] } 0 <= i && i < len(ts) ==> ts[i] != nil) && ts[0].Type == hclsyntax.TokenOQuote && ts[len(ts) - 1].Type == hclsyntax.TokenCQuote && (forall i int :: { ts[i] } 1 <= i && i < len(ts) - 1 ==> ts[i].Type == hclsyntax.TokenQuotedLit && litOK(ts[i].Bytes))
 // verif:pred LabelNodeWF(k *node) = k != nil && ((typeis(k.content, ptr(identifier)) && unbox(k.content, ptr(identifier)) != nil && unbox(k.content, ptr(identifier)).token != nil && unbox(k.content, ptr(identifier)).token.Type == hclsyntax.TokenIdent) || (typeis(k.content, ptr(quoted)) && unbox(k.content, ptr(quoted)) != nil && QuotedWF(unbox(k.content, ptr(quoted)).tokens)))
@@ -642,6 +645,7 @@ package hclwrite
 //@ requires tok.Type == TokenQuotedLit || tok.Type == TokenStringLit
 //@ assigns nothing
 //@ ensures litOK(tok.Bytes) ==> !hasErr(ret1)
+//@ ensures ret0 == litVal(tok.Bytes)
 
 // Every well-formed label yields exactly one string: none is dropped, none is added.
 // verif:func (*blockLabels).Current
@@ -649,3 +653,6 @@ package hclwrite
 //@ assigns listed
 //@ ensures count: len(ret) == listed
 //@ loop 1 invariant len(labelNames) == rangeindex + 1 && fresh(labelNames) && rangeindex + 1 <= len(list)
+// The label string of a quoted label with one literal piece is that piece decoded, of an empty quoted label "".
+//@ loop 1 invariant value: forall j int :: { labelNames[j] } 0 <= j && j < len(labelNames) && typeis(list[j].content, ptr(quoted)) ==> (len(unbox(list[j].content, ptr(quoted)).tokens) == 3 ==> labelNames[j] == litVal(unbox(list[j].content, ptr(quoted)).tokens[1].Bytes)) && (len(unbox(list[j].content, ptr(quoted)).tokens) == 2 ==> labelNames[j] == "")
+//@ loop 2 invariant rangeindex + 1 <= len(tokens) - 2 && (rangeindex + 1 == 0 ==> labelString == "") && (rangeindex + 1 == 1 ==> labelString == litVal(tokens[1].Bytes))
